@@ -25,14 +25,20 @@ func ruleVerifyWindow(c *RC) *RuleResult {
 	// which tables does completion re-validate?
 	completes := map[string]bool{}
 	if rec != nil {
-		for g := range c.A.cluster(rec) {
+		var scan func(g *FuncInfo, depth int)
+		scan = func(g *FuncInfo, depth int) {
 			for _, s := range c.A.FnSites[g] {
 				if s.Kind == "call" && s.Target != nil {
 					if t, ok := vr[s.Target]; ok {
 						completes[t] = true
+					} else if depth < 2 && c.A.inlinableShared(s.Target) {
+						scan(s.Target, depth+1) // the recorder's tail extracted for a second caller
 					}
 				}
 			}
+		}
+		for g := range c.A.cluster(rec) {
+			scan(g, 0)
 		}
 	}
 	kinds := []struct{ kind, table, verify, ctor, accept string }{
@@ -123,7 +129,7 @@ func ruleVerifyWindow(c *RC) *RuleResult {
 				acc := map[string]bool{}
 				for g := range c.A.cluster(f) {
 					for _, s := range c.A.FnSites[g] {
-						if s.Kind == "call" && s.Target != nil && s.Target != fn && !c.A.cluster(f)[s.Target] && c.reachesCallbackSameEpoch(s.Target, k.accept) {
+						if s.Kind == "call" && s.Target != nil && s.Target != fn && !c.A.cluster(f)[s.Target] && c.reachesCallbackSameEpoch(s.Target, k.accept, c.A.cluster(f)) {
 							acc["fn:"+s.Target.Name] = true
 						}
 					}
@@ -260,8 +266,15 @@ func (c *RC) reachesCallback(fn *FuncInfo, cb string) bool {
 
 // reachesCallbackSameEpoch: like reachesCallback, but not through an initialiser: what is counted after an epoch change
 // belongs to the new view (the entries counted there are those of the new view).
-func (c *RC) reachesCallbackSameEpoch(fn *FuncInfo, cb string) bool {
+// skip: functions not to look into — the function under judgement itself: a nested activation of it (through a cycle of
+// the call graph) re-validates before it counts, by the very order being established for the outer one.
+func (c *RC) reachesCallbackSameEpoch(fn *FuncInfo, cb string, skip ...map[*FuncInfo]bool) bool {
 	inis := map[*FuncInfo]bool{}
+	for _, m := range skip {
+		for f := range m {
+			inis[f] = true
+		}
+	}
 	for _, i := range c.initialisers() {
 		inis[i] = true
 	}
